@@ -38,9 +38,9 @@ theorem rawFrame_drop8 (l c : Nat) (p rest : Bytes) : (rawFrame l c p ++ rest).d
 /-! ## the replay loop -/
 
 /-- The loop does not depend on the fuel as long as there is enough of it. -/
-theorem replayLoop_fuel (cd : Codec) (fsize : Nat) (f1 f2 : Nat) (rest : Bytes) (off : Nat) (b : Manifest)
+theorem replayLoop_fuel (cd : Codec) (f1 f2 : Nat) (rest : Bytes) (off : Nat) (b : Manifest)
     (h1 : rest.length ≤ f1) (h2 : rest.length ≤ f2) :
-    replayLoop cd fsize f1 rest off b = replayLoop cd fsize f2 rest off b := by
+    replayLoop cd f1 rest off b = replayLoop cd f2 rest off b := by
   induction f1 generalizing f2 rest off b with
   | zero =>
     have : rest.length < 8 := by omega
@@ -64,24 +64,21 @@ theorem replayLoop_fuel (cd : Codec) (fsize : Nat) (f1 f2 : Nat) (rest : Bytes) 
             · rfl
             · split
               · rfl
-              · split
-                · rfl
-                · rename_i hlt _ hbody _ _ _ _ _
-                  apply ih
-                  · simp only [List.length_drop]; omega
-                  · simp only [List.length_drop]; omega
+              · apply ih
+                · simp only [List.length_drop]; omega
+                · simp only [List.length_drop]; omega
 
 /-- The loop with the canonical amount of fuel. -/
-def replayRest (cd : Codec) (fsize : Nat) (rest : Bytes) (off : Nat) (b : Manifest) : ReplayResult :=
-  replayLoop cd fsize rest.length rest off b
+def replayRest (cd : Codec) (rest : Bytes) (off : Nat) (b : Manifest) : ReplayResult :=
+  replayLoop cd rest.length rest off b
 
-theorem replayLoop_eq_replayRest (cd : Codec) (fsize fuel : Nat) (rest : Bytes) (off : Nat) (b : Manifest)
-    (h : rest.length ≤ fuel) : replayLoop cd fsize fuel rest off b = replayRest cd fsize rest off b :=
-  replayLoop_fuel cd fsize fuel rest.length rest off b h (Nat.le_refl _)
+theorem replayLoop_eq_replayRest (cd : Codec) (fuel : Nat) (rest : Bytes) (off : Nat) (b : Manifest)
+    (h : rest.length ≤ fuel) : replayLoop cd fuel rest off b = replayRest cd rest off b :=
+  replayLoop_fuel cd fuel rest.length rest off b h (Nat.le_refl _)
 
 /-- Fewer than 8 bytes left: EOF / UnexpectedEOF on the length+CRC header, the loop stops. -/
-theorem replayRest_short (cd : Codec) (fsize : Nat) (rest : Bytes) (off : Nat) (b : Manifest)
-    (h : rest.length < 8) : replayRest cd fsize rest off b = .ok (b, off) := by
+theorem replayRest_short (cd : Codec) (rest : Bytes) (off : Nat) (b : Manifest)
+    (h : rest.length < 8) : replayRest cd rest off b = .ok (b, off) := by
   unfold replayRest
   cases hl : rest.length with
   | zero => rfl
@@ -89,16 +86,16 @@ theorem replayRest_short (cd : Codec) (fsize : Nat) (rest : Bytes) (off : Nat) (
 
 /-- One raw frame at the head of the unread bytes whose length field passes the sanity check and
     whose payload is complete. -/
-theorem replayRest_rawFrame (cd : Codec) (fsize : Nat) (l c : Nat) (p rest : Bytes) (off : Nat) (b : Manifest)
-    (hl : l = p.length) (hl32 : l < 2 ^ 32) (hc32 : c < 2 ^ 32) (hfs : l ≤ fsize % 2 ^ 32) :
-    replayRest cd fsize (rawFrame l c p ++ rest) off b =
+theorem replayRest_rawFrame (cd : Codec) (l c : Nat) (p rest : Bytes) (off : Nat) (b : Manifest)
+    (hl : l = p.length) (hl32 : l < 2 ^ 32) (hc32 : c < 2 ^ 32) :
+    replayRest cd (rawFrame l c p ++ rest) off b =
       if cd.crc p ≠ c then .error .badChecksum
       else match cd.dec p with
         | none => .error .decode
         | some cs =>
           match applyChangeSet b cs with
           | (_, some e) => .error (.apply e)
-          | (b', none) => replayRest cd fsize rest (off + 8 + l) b' := by
+          | (b', none) => replayRest cd rest (off + 8 + l) b' := by
   subst hl
   unfold replayRest
   have hlen : (rawFrame p.length c p ++ rest).length = 8 + p.length + rest.length := by
@@ -109,7 +106,6 @@ theorem replayRest_rawFrame (cd : Codec) (fsize : Nat) (l c : Nat) (p rest : Byt
   simp only [replayLoop]
   rw [if_neg (by rw [hlen]; omega)]
   rw [rawFrame_take4, rawFrame_crc, rawFrame_drop8, beNat_beBytes4 _ hl32, beNat_beBytes4 _ hc32]
-  rw [if_neg (by omega)]
   rw [if_neg (by simp)]
   simp only [List.take_left' rfl, List.drop_left' rfl]
   by_cases hcrc : cd.crc p = c
@@ -125,26 +121,10 @@ theorem replayRest_rawFrame (cd : Codec) (fsize : Nat) (l c : Nat) (p rest : Byt
       · rfl
   · simp [hcrc]
 
-/-- The length sanity check. -/
-theorem replayRest_lenExceeds (cd : Codec) (fsize : Nat) (l c : Nat) (body : Bytes) (off : Nat) (b : Manifest)
-    (hl32 : l < 2 ^ 32) (hfs : fsize % 2 ^ 32 < l) :
-    replayRest cd fsize (rawFrame l c body) off b = .error .lenExceedsFile := by
-  unfold replayRest
-  have hlen : (rawFrame l c body).length = 8 + body.length := by simp [rawFrame]; omega
-  rw [hlen]
-  have h8 : 8 + body.length = (7 + body.length) + 1 := by omega
-  rw [h8]
-  simp only [replayLoop]
-  rw [if_neg (by rw [hlen]; omega)]
-  have := rawFrame_take4 l c body []
-  simp only [List.append_nil] at this
-  rw [this, beNat_beBytes4 _ hl32, if_pos hfs]
-
-/-- A frame whose payload is cut short (and whose length passes the sanity check): the loop
-    stops as on EOF. -/
-theorem replayRest_tornPayload (cd : Codec) (fsize : Nat) (l c : Nat) (body : Bytes) (off : Nat) (b : Manifest)
-    (hl32 : l < 2 ^ 32) (hfs : l ≤ fsize % 2 ^ 32) (hshort : body.length < l) :
-    replayRest cd fsize (rawFrame l c body) off b = .ok (b, off) := by
+/-- A frame whose payload is cut short: the loop stops as on EOF. -/
+theorem replayRest_tornPayload (cd : Codec) (l c : Nat) (body : Bytes) (off : Nat) (b : Manifest)
+    (hl32 : l < 2 ^ 32) (hshort : body.length < l) :
+    replayRest cd (rawFrame l c body) off b = .ok (b, off) := by
   unfold replayRest
   have hlen : (rawFrame l c body).length = 8 + body.length := by simp [rawFrame]; omega
   rw [hlen]
@@ -155,7 +135,7 @@ theorem replayRest_tornPayload (cd : Codec) (fsize : Nat) (l c : Nat) (body : By
   have h4 := rawFrame_take4 l c body []
   have hd := rawFrame_drop8 l c body []
   simp only [List.append_nil] at h4 hd
-  rw [h4, hd, beNat_beBytes4 _ hl32, if_neg (by omega), if_pos hshort]
+  rw [h4, hd, beNat_beBytes4 _ hl32, if_pos hshort]
 
 /-! ## sequences of frames -/
 
@@ -192,13 +172,13 @@ theorem applyAll_append (m : Manifest) (a b : List ChangeSet) :
     · rfl
 
 /-- Complete, well-formed frames are consumed one by one and applied in order. -/
-theorem replayRest_frames (cd : Codec) (hv : cd.Valid) (fsize : Nat) (sets : List ChangeSet) (tail : Bytes)
+theorem replayRest_frames (cd : Codec) (hv : cd.Valid) (sets : List ChangeSet) (tail : Bytes)
     (off : Nat) (b m : Manifest)
     (hall : applyAll b sets = some m)
     (hrange : ∀ cs, cs ∈ sets → ChangeSet.InRange cs)
-    (hsz : ∀ cs, cs ∈ sets → (cd.enc cs).length ≤ fsize % 2 ^ 32) :
-    replayRest cd fsize (framesOf cd sets ++ tail) off b =
-      replayRest cd fsize tail (off + (framesOf cd sets).length) m := by
+    (hsz : ∀ cs, cs ∈ sets → (cd.enc cs).length < 2 ^ 32) :
+    replayRest cd (framesOf cd sets ++ tail) off b =
+      replayRest cd tail (off + (framesOf cd sets).length) m := by
   induction sets generalizing off b with
   | nil =>
     simp only [applyAll] at hall
@@ -207,11 +187,8 @@ theorem replayRest_frames (cd : Codec) (hv : cd.Valid) (fsize : Nat) (sets : Lis
   | cons cs sets ih =>
     simp only [applyAll] at hall
     rw [framesOf_cons, List.append_assoc, frame_eq_rawFrame]
-    have hle := hsz cs (by simp)
-    have hlt : (cd.enc cs).length < 2 ^ 32 := by
-      have := Nat.mod_lt fsize (show 0 < 2 ^ 32 by decide)
-      omega
-    rw [replayRest_rawFrame cd fsize _ _ _ _ off b rfl hlt (hv.crc_lt _) hle]
+    have hlt : (cd.enc cs).length < 2 ^ 32 := hsz cs (by simp)
+    rw [replayRest_rawFrame cd _ _ _ _ off b rfl hlt (hv.crc_lt _)]
     rw [if_neg (by simp), hv.dec_enc cs (hrange cs (by simp))]
     simp only
     rcases happ : applyChangeSet b cs with ⟨b', _ | e⟩
@@ -227,7 +204,7 @@ theorem replayRest_frames (cd : Codec) (hv : cd.Valid) (fsize : Nat) (sets : Lis
 /-- The header checks of `ReplayManifestFile` on a file that starts with a proper header. -/
 theorem replay_header (cd : Codec) (ext : Nat) (hext : ext < 2 ^ 16) (rest : Bytes) :
     replay cd (manifestHeader ext ++ rest) ext =
-      replayRest cd (8 + rest.length) rest 8 Manifest.empty := by
+      replayRest cd rest 8 Manifest.empty := by
   unfold replay
   have hlen : (manifestHeader ext ++ rest).length = 8 + rest.length := by simp
   rw [hlen, if_neg (by omega)]
@@ -808,21 +785,21 @@ theorem writeAt_end (file b : Bytes) : writeAt file file.length b = file ++ b :=
   unfold writeAt
   simp
 
-/-- A torn tail: fewer than 8 bytes, or a frame header whose length passes the sanity check and
-    whose payload is incomplete. Exactly the situations in which the replay loop stops. -/
-def TornTail (fsize : Nat) (t : Bytes) : Prop :=
-  t.length < 8 ∨ (beNat (t.take 4) ≤ fsize % 2 ^ 32 ∧ t.length - 8 < beNat (t.take 4))
+/-- A torn tail: fewer than 8 bytes, or a frame header followed by fewer payload bytes than its
+    length field announces. Exactly the situations in which the replay loop stops. -/
+def TornTail (t : Bytes) : Prop :=
+  t.length < 8 ∨ t.length - 8 < beNat (t.take 4)
 
-theorem replayRest_torn (cd : Codec) (fsize : Nat) (t : Bytes) (off : Nat) (b : Manifest)
-    (ht : TornTail fsize t) : replayRest cd fsize t off b = .ok (b, off) := by
-  rcases ht with h | ⟨h1, h2⟩
-  · exact replayRest_short cd fsize t off b h
+theorem replayRest_torn (cd : Codec) (t : Bytes) (off : Nat) (b : Manifest)
+    (ht : TornTail t) : replayRest cd t off b = .ok (b, off) := by
+  rcases ht with h | h2
+  · exact replayRest_short cd t off b h
   · by_cases h8 : t.length < 8
-    · exact replayRest_short cd fsize t off b h8
+    · exact replayRest_short cd t off b h8
     · unfold replayRest
       obtain ⟨n, hn⟩ : ∃ n, t.length = n + 1 := ⟨t.length - 1, by omega⟩
       rw [hn]
       simp only [replayLoop]
-      rw [if_neg h8, if_neg (by omega), if_pos (by simp only [List.length_drop]; omega)]
+      rw [if_neg h8, if_pos (by simp only [List.length_drop]; omega)]
 
 end Badger
